@@ -4,6 +4,7 @@ import (
 	"context"
 	"errors"
 	"fmt"
+	"io"
 	"os"
 	"runtime"
 	"strconv"
@@ -217,6 +218,49 @@ func runC12(res *Result, d *Driver, tier string, seed uint64) {
 		}
 	}
 
+	// ---- nothing of a run is alive once the call has returned: the program leaves a process behind that answers every
+	// byte arriving on the run's standard input; the host writes one the moment Execve returns. An answer means that a
+	// process of the run was still running after the run had returned ----
+	{
+		nE := 12
+		if tier == "thorough" {
+			nE = 150
+		}
+		envE, err := newEnv(container.Builder{})
+		if err == nil {
+			answered := 0
+			for it := 0; it < nE; it++ {
+				inR, inW, _ := os.Pipe()
+				outR, outW, _ := os.Pipe()
+				pf := openProbe()
+				ctx, cancel := context.WithTimeout(context.Background(), 20*time.Second)
+				r := envE.Execve(ctx, container.ExecveParam{Args: []string{"/bin/true", "fork;echoer;endfork;sleep 5;exit 0"}, Env: []string{"PATH=/usr/bin:/bin"},
+					Files: []uintptr{inR.Fd(), outW.Fd(), outW.Fd()}, ExecFile: pf.Fd(), SyncFunc: func(int) error { return nil }, SyncAfterExec: it%2 == 1})
+				inW.Write([]byte("x"))
+				t0 := time.Now()
+				for time.Since(t0) < 3*time.Millisecond {
+				}
+				cancel()
+				pf.Close()
+				inR.Close()
+				outW.Close()
+				envE.Ping()
+				inW.Close()
+				outR.SetReadDeadline(time.Now().Add(5 * time.Second))
+				data, _ := io.ReadAll(outR)
+				outR.Close()
+				res.Case("echoer "+itoa(it), true, "alive-after-return")
+				res.Traces++
+				if r.Status == runner.StatusNormal && strings.Contains(string(data), "E") {
+					answered++
+				}
+			}
+			if answered > 0 {
+				res.Mismatch(Mismatch{Kind: "oracle", What: "a process of the run is still running after Execve has returned (C12: nothing is left behind when the run returns)", Input: fmt.Sprintf("%d container runs of `fork;echoer;endfork;sleep 5;exit 0`, one byte written to the run's stdin the moment Execve returns", nE), Impl: fmt.Sprintf("%d of %d runs: the process left behind answered", answered, nE), Oracle: "violates"})
+			}
+			envE.Close()
+		}
+	}
 	// ---- Build/Destroy cycles ----
 	for i := 0; i < cycles; i++ {
 		e, err := newEnv(container.Builder{})
